@@ -66,6 +66,33 @@ def _clause(eng, con, clause, fr, extra):
     return eng.eval_clause(clause, con.module, b)
 
 
+def _record_loop_effects(eng, loop_key, eff_mark):
+    """names of the effects one arbitrary iteration of the loop emitted (shared by all paths of the function)"""
+    emitted = eng.run.__dict__.setdefault('loop_effects', {})
+    emitted.setdefault(loop_key, set()).update(nme for nme, _ in eng.effects[eff_mark:])
+
+
+def note_effect_query(eng, names):
+    """an effect predicate (no_effect / count_effects / effect_at) is being evaluated: the iterations of the symbolic
+    loops passed since the base of the log are not in the per-path log, so the predicate is only meaningful if those
+    loops emit none of the effects asked about; checked when all paths are known (verify_function)"""
+    base = len(eng.effects_base)
+    for loop_key, pos in eng.loops_passed:
+        if pos >= base:
+            eng.run.__dict__.setdefault('effect_queries', set()).add((loop_key, tuple(names) if names else None))
+
+
+def check_effect_queries(runner):
+    """-> error text when an effect predicate was evaluated across a symbolic loop that emits such effects"""
+    emitted = runner.__dict__.get('loop_effects', {})
+    for loop_key, names in sorted(runner.__dict__.get('effect_queries', ()), key=str):
+        bad = emitted.get(loop_key, set()) if names is None else emitted.get(loop_key, set()) & set(names)
+        if bad:
+            return (f'effect predicate over {sorted(bad)} evaluated after the symbolic loop {loop_key} which emits them: '
+                    f'effects inside loops are not in the per-path log, state them per iteration (loop<K>_iter)')
+    return None
+
+
 def symbolic_for(eng, s, fr, it):
     spec, k_ord, con = find_spec(eng, fr, s)
     if spec is None or 'inv' not in spec:
@@ -74,6 +101,7 @@ def symbolic_for(eng, s, fr, it):
     if eng.mode != EXEC:
         raise Unsupported('loop outside exec mode')
     tag = f'loop{k_ord}/{eng.cur_fn}'
+    loop_key = f'loop{k_ord}@{fr.fi.qualname}'
     entry_heap = eng.heap.snapshot()
     entry_vars = dict(fr.vars)
     loop_old = OldNS(entry_vars, entry_heap)
@@ -82,7 +110,7 @@ def symbolic_for(eng, s, fr, it):
         it = ValuesView(it, 'keys')
     if is_list:
         n = eng.list_len(it)
-        ghost0 = {'k': 0, 'loop_old': loop_old}
+        ghost0 = {'k': 0, 'loop_old': loop_old, 'loop_items': it}
     else:
         ety = eng.elem_type(it) if not (isinstance(it, ValuesView) and it.what == 'items') else it.d.kty
         so = sort_of(it.d.kty if isinstance(it, ValuesView) else ety)
@@ -112,7 +140,7 @@ def symbolic_for(eng, s, fr, it):
     if is_list:
         k = eng.run.fresh('k', I)
         eng.run.assume(z3.And(0 <= k, k <= n))
-        ghost = {'k': SV(k, INT), 'loop_old': loop_old}
+        ghost = {'k': SV(k, INT), 'loop_old': loop_old, 'loop_items': it}
         eng.run.assume(_clause(eng, con, spec['inv'], fr, ghost))
         more = k < n
     else:
@@ -131,7 +159,7 @@ def symbolic_for(eng, s, fr, it):
     if eng.run.decide(more):
         if is_list:
             elem = eng.list_get(it, k)
-            ghost_next = {'k': SV(k + 1, INT), 'loop_old': loop_old}
+            ghost_next = {'k': SV(k + 1, INT), 'loop_old': loop_old, 'loop_items': it}
         else:
             e = eng.run.fresh('elem', so)
             eng.run.assume(z3.And(coll_chi[e], z3.Not(seen[e])))
@@ -144,15 +172,34 @@ def symbolic_for(eng, s, fr, it):
                 elem = kv
             ghost_next = {'seen': SymSet(z3.Store(seen, e, True), keyty), 'loop_old': loop_old}
         eng.bind_target(s.target, elem, fr, s.lineno)
+        # ghost effect log: effects emitted by this (arbitrary) iteration start here
+        eff_mark = len(eng.effects)
+        iter_old = OldNS(dict(fr.vars), eng.heap.snapshot())
         try:
             eng.exec_block(s.body, fr)
         except BreakEx:
+            _record_loop_effects(eng, loop_key, eff_mark)
+            eng.loops_passed.append((loop_key, eff_mark))
             return     # leaves the loop from an arbitrary iteration satisfying the invariant
         except ContinueEx:
             pass
+        _record_loop_effects(eng, loop_key, eff_mark)
+        # per-iteration postconditions loop<K>_iter*: effect predicates are relative to the start of this iteration
+        iter_clauses = [spec[w] for w in sorted(spec) if w == 'iter' or w.startswith('iter_')]
+        if iter_clauses:
+            saved_base = eng.effects_base
+            eng.effects_base = eng.effects[:eff_mark]
+            try:
+                for cl in iter_clauses:
+                    eng.run.oblige(f'loop-iter:{cl.name}/{tag}', 'inv',
+                                   _clause(eng, con, cl, fr, dict(ghost, iter_old=iter_old)), s.lineno)
+            finally:
+                eng.effects_base = saved_base
         eng.run.oblige(f'loop-preserve:{tag}', 'inv', _clause(eng, con, spec['inv'], fr, ghost_next), s.lineno)
         raise PathEnd()
     # 3. exit: invariant with everything processed
+    # the ghost effect log of this path does not hold what the iterations emitted: remember that the loop was passed
+    eng.loops_passed.append((loop_key, len(eng.effects)))
     if not is_list:
         eng.run.assume(z3.ForAll([x], seen[x] == coll_chi[x]))
     eng.exec_block(s.orelse, fr)
@@ -190,16 +237,22 @@ def symbolic_while(eng, s, fr):
     c = eng.truthy(eng.ev(s.test, fr))
     if not isinstance(c, bool):
         c = eng.run.decide(c)
+    loop_key = f'loop{k_ord}@{fr.fi.qualname}'
     if c:
+        eff_mark = len(eng.effects)
         try:
             eng.exec_block(s.body, fr)
         except BreakEx:
+            _record_loop_effects(eng, loop_key, eff_mark)
+            eng.loops_passed.append((loop_key, eff_mark))
             return
         except ContinueEx:
             pass
+        _record_loop_effects(eng, loop_key, eff_mark)
         eng.run.oblige(f'loop-preserve:{tag}', 'inv', _clause(eng, con, spec['inv'], fr, ghost), s.lineno)
         if measure0 is not None:
             m1 = eng.eval_term(con, spec['decreases'], fr, ghost)
             eng.run.oblige(f'term:{tag}', 'term', z3.And(measure0 >= 0, m1 < measure0), s.lineno)
         raise PathEnd()
+    eng.loops_passed.append((loop_key, len(eng.effects)))
     eng.exec_block(s.orelse, fr)
